@@ -539,6 +539,22 @@ func c06Suite(c *core.Collector, seed uint64, batch int, conns, nreq int, wraps 
 		wg.Add(1)
 		go run(batch*1000+900+i, 66000, 1, true, false)
 	}
+	// the re-request path takes part in the numbering (5.3 s of real idle time, concurrent with everything else)
+	if !svc.RaceMode {
+		wg.Add(1)
+		go func() {
+			defer wg.Done()
+			viol, incon, n := c06Reissue(srv.Addr, batch*1000+850)
+			c.Evals(int64(n))
+			c.Count("frames_numbered_across_a_re_request", int64(n))
+			if incon {
+				c.Inconclusive()
+			}
+			for _, v := range viol {
+				c.Violate(v[0], v[1], nil)
+			}
+		}()
+	}
 	// tail bursts: request + non-replying messages in one write; the reply must not wait for later traffic
 	for i := 0; i < 2+conns/6; i++ {
 		wg.Add(1)
@@ -571,4 +587,5 @@ func c06Worker(c *core.Collector, x *Ctx) {
 	c06Suite(c, c.Seed, x.Batch, conns, nreq, wraps)
 	c.Floor("replies_checked", 1000)
 	c.Floor("tail_bursts_answered_without_further_traffic", 20)
+	c.Floor("frames_numbered_across_a_re_request", 4)
 }
